@@ -58,6 +58,12 @@ func (vertex *Vertex) Validate() error {
 	if vertex.Label == "" {
 		return errors.New("'label' cannot be blank")
 	}
+	if err := validateID("gid", vertex.Gid); err != nil {
+		return err
+	}
+	if err := validateID("label", vertex.Label); err != nil {
+		return err
+	}
 	for k := range vertex.GetDataMap() {
 		err := ValidateFieldName(k)
 		if err != nil {
@@ -121,6 +127,11 @@ func (edge *Edge) Validate() error {
 	if edge.To == "" {
 		return errors.New("'to' cannot be blank")
 	}
+	for name, k := range map[string]string{"gid": edge.Gid, "label": edge.Label, "from": edge.From, "to": edge.To} {
+		if err := validateID(name, k); err != nil {
+			return err
+		}
+	}
 	for k := range edge.GetDataMap() {
 		err := ValidateFieldName(k)
 		if err != nil {
@@ -156,7 +167,19 @@ func ValidateFieldName(k string) error {
 	return nil
 }
 
+// validateID returns an error if an element id, label or endpoint can not be
+// stored: the key value drivers use the null character to separate key fields
+func validateID(name, k string) error {
+	if strings.ContainsRune(k, 0) {
+		return fmt.Errorf("'%s' cannot contain the null character", name)
+	}
+	return nil
+}
+
 func validate(k string) error {
+	if strings.ContainsRune(k, 0) {
+		return errors.New(`cannot contain the null character`)
+	}
 	if strings.ContainsAny(k, `!@#$%^&*()+={}[] :;"',.<>?/\|~`) {
 		return errors.New(`cannot contain: !@#$%^&*()+={}[] :;"',.<>?/\|~`)
 	}
